@@ -305,7 +305,8 @@ def meadows_case(draw):
         case['task_name'] = draw(st.one_of(letters_st.flatmap(lambda c: name_st.map(lambda t: c + t)),
                                            letters_st.flatmap(lambda c: name_st.map(lambda t: c + t)),
                                            st.sampled_from(['bird', 'fly', 'cat', 'lab', 'fish', 'dog'])))
-        case['var_order'] = draw(st.sampled_from(['rdm-first', 'stim-first', 'interleaved']))
+        case['var_order'] = draw(st.sampled_from(['rdm-first', 'stim-first', 'interleaved',
+                                                   'blocks-in-different-orders']))
     else:
         case['participants'] = [draw(petname_st())]
         # position of the arrangement tasks among other tasks
@@ -346,6 +347,10 @@ def write_meadows(case, path):
             items = items_r + items_s
         elif case['var_order'] == 'stim-first':
             items = items_s + items_r
+        elif case['var_order'] == 'blocks-in-different-orders':
+            # the two variable blocks list the participants in different orders (files edited or
+            # re-exported): every participant still gets the vector stored under its own name
+            items = items_s + items_r[1:] + items_r[:1]
         else:
             items = [x for pair in zip(items_s, items_r) for x in pair]
         savemat(path, dict(items))
